@@ -34,7 +34,7 @@ ASSUMPTIONS = ['pre-states are produced by a generator (1-2 agents in loc1, one 
                'in loc2, optional nested compartment, optional flow step and '
                'legacy deriver per agent, symbolic values); every operation is '
                'applied through the engine by a process update']
-BOUNDS = {'quick': '12 single/combined operations x generated pre-states, one '
+BOUNDS = {'quick': '13 single/combined operations x generated pre-states, one '
                    'step', 'thorough': 'histories of 2 steps over the same '
                                        'operations'}
 OUTSIDE = '_reduce; operations issued by steps; deeper nesting than 2'
@@ -80,7 +80,8 @@ class Actor(Process):
 
     def ports_schema(self):
         return {'loc1': {'*': copy.deepcopy(FULL)},
-                'loc2': {'*': copy.deepcopy(FULL)}}
+                'loc2': {'*': copy.deepcopy(FULL)},
+                'counts': {'*': {'_default': 5}}}
 
     def next_update(self, timestep, states):
         if self.pending is None:
@@ -109,7 +110,7 @@ def under(p, pre):
 
 OPS = ['add', 'del_key', 'del_tuple', 'del_deep', 'gen', 'div', 'move',
        'add_existing', 'combo_add_del_move', 'combo_move_del', 'combo_gen_div',
-       'del_nested']
+       'del_nested', 'add_leaf']
 
 
 def jobs(tier):
@@ -137,6 +138,11 @@ def make_op(ctx, kind, state, vals_new, fresh):
         return ({'loc1': {'_add': [{'key': nk,
                                     'state': {'s': {'x': vals_new}}}]}},
                 [], [('loc1', nk)], {'added': ('loc1', nk)})
+    if label == 'add_leaf':
+        # a leaf-valued child under a glob of leaves; the given state may be
+        # any integer, including 0
+        return ({'counts': {'_add': [{'key': nk, 'state': vals_new}]}},
+                [], [('counts', nk)], {'added_leaf': ('counts', nk)})
     if label == 'add_existing':
         if first is None:
             return None
@@ -237,12 +243,14 @@ def body(ctx, cfg):
     actor = Actor({})
     processes = {'actor': actor, 'loc1': {'a1': a1['processes']},
                  'loc2': {'b1': b1['processes']}}
-    topology = {'actor': {'loc1': ('loc1',), 'loc2': ('loc2',)},
+    topology = {'actor': {'loc1': ('loc1',), 'loc2': ('loc2',),
+                          'counts': ('counts',)},
                 'loc1': {'a1': a1['topology']}, 'loc2': {'b1': b1['topology']}}
     steps = {'loc1': {'a1': a1.get('steps', {})}}
     flow = {'loc1': {'a1': a1.get('flow', {})}}
     init = {'loc1': {'a1': {'s': {'x': vals['a1']}}},
-            'loc2': {'b1': {'s': {'x': vals['b1']}}}}
+            'loc2': {'b1': {'s': {'x': vals['b1']}}},
+            'counts': {'c0': 1}}
     if nested:
         init['loc1']['a1']['sub'] = {'s': {'x': vals['sub']}}
     if two:
@@ -309,6 +317,8 @@ def body(ctx, cfg):
             node = _get(val, pth)
             cr.append(node is not None and EQ(_get(node, ('s', 'x')), vnew))
             cr.append(node is not None and _get(node, ('s', 'm')) == 4)
+        if 'added_leaf' in checks:
+            cr.append(EQ(_get(val, checks['added_leaf']), vnew))
         if 'generated' in checks:
             pth, a = checks['generated']
             node = _get(val, pth)
